@@ -171,6 +171,35 @@ def run(ctx):
             violations.append({"signature": ("accept" if "accepted" in d else "outcome") + ":allow_unknown-config",
                                "what": "allow_unknown given by name: " + d,
                                "replay": {"allow_unknown": common.jval(rules), "documents": [common.jval(doc)]}})
+    # a reference beside a field whose name has a space (a legal field name): the sub-schema must still be read as a schema
+    for i in range(40 if not thorough else 400):
+        other = rng.choice(['first name', 'a b', 'x y z'])
+        inner = {'f': {'type': 'integer'}, other: g.simple_rules(1) or {'type': 'string'}}
+        wrap = rng.choice(['dict', 'dict-in-dict', 'dict-in-list'])
+        def build(sub):
+            if wrap == 'dict':
+                return {'a': {'type': 'dict', 'schema': sub}}
+            if wrap == 'dict-in-dict':
+                return {'a': {'type': 'dict', 'schema': {'b': {'type': 'dict', 'schema': sub}}}}
+            return {'a': {'type': 'list', 'schema': {'type': 'dict', 'schema': sub}}}
+        def wrapdoc(d):
+            return {'a': d} if wrap == 'dict' else ({'a': {'b': d}} if wrap == 'dict-in-dict' else {'a': [d]})
+        docs = [wrapdoc({'f': rng.choice([1, 'x']), other: g.value_for(inner[other], 1, 0.7)}), wrapdoc({'f': 1})]
+        a = observe(build(inner), {}, docs)
+        if a["accepted"] is not True:
+            continue
+        refd = dict(inner, f='RF')
+        module_level = rng.random() < 0.5
+        b = observe(build(refd), {}, docs, refs.make_registries({'RF': inner['f']}, {}), module_level)
+        cases += 1
+        dist["ref@field-beside-space-name"] += 1
+        d = compare(a, b)
+        if d:
+            violations.append({"signature": "space-sibling:" + ("accept" if "accepted" in d else "outcome"),
+                               "what": "field rules given by name beside the field %r (%s): %s" % (other, wrap, d),
+                               "replay": {"inline": common.jval(build(inner)), "referenced": common.jval(build(refd)),
+                                          "rules_set_registry": common.jval({'RF': inner['f']}), "schema_registry": {}, "config": {"d": []},
+                                          "module_level": module_level, "documents": [common.jval(x) for x in docs]}})
     # recursive definitions: accepted, and terminate on every finite document
     for i in range(60 if not thorough else 600):
         depth = rng.randrange(0, 7)
